@@ -15,7 +15,7 @@ from props.c13 import coord_literal
 
 
 def col_literal(col):
-    return '[' + '; '.join('None' if x != x else f'(Some {int(x)})' for x in col) + ']'
+    return '[' + '; '.join('None' if x != x else f'(Some ({int(x)}))' for x in col) + ']'
 
 
 def make_dataset(rng, fam):
@@ -66,6 +66,9 @@ def make_dataset(rng, fam):
                     shape = [ds.sizes.get(x, sp['n'] if x == sp['dim'] else nt) for x in dims]
                     n = int(numpy.prod(shape))
                     data = (numpy.arange(n, dtype='f8') + counter).reshape(shape)
+                    if (v + len(variables)) % 2 == 1:
+                        # values below zero (velocities, temperatures in polar water, heights below datum)
+                        data = -data - 2.0
                     counter += n + 5
                     da = xarray.DataArray(data, dims=dims)
                     # blank below the floor, in physical order
